@@ -1,5 +1,5 @@
 """Sidecar contracts for the rasterized post-processing helpers (C17)."""
-from pyvc.contracts import contract, Loop
+from pyvc.contracts import contract, Loop, REGISTRY
 from pyvc import tys as T
 
 LM = "maze_dataset/maze/lattice_maze.py"
@@ -86,6 +86,7 @@ class process_maze_rasterized_input_target:
         # optional post-processing: isolated-cell removal first, then pixel extension, each exactly as its own contract says, on both images
         "C17.post.input": f"same_grid(result[0], {_post('final(g_in)')})",
         "C17.post.target": f"same_grid(result[1], {_post('final(g_tg)')})",
+        "C17.shape": "result.shape == ((2, 2 * H + 2, 2 * W + 2, 3) if extend_pixels else (2, H, W, 3))",
     }
     result = T.GridT("int", [2, None, None, 3])
     pure_result = True
@@ -105,8 +106,39 @@ class rasterized_getitem:
     ensures = {
         "C17.item": "same_value(result, process_maze_rasterized_input_target(maze=self.mazes[idx], remove_isolated_cells=self.cfg.remove_isolated_cells,"
         " extend_pixels=self.cfg.extend_pixels, endpoints_as_open=self.cfg.endpoints_as_open))",
+        "C17.item.shape": "result.shape == ((2, 4 * self.mazes[idx].connection_list.shape[1] + 4, 4 * self.mazes[idx].connection_list.shape[2] + 4, 3) if self.cfg.extend_pixels"
+        " else (2, 2 * self.mazes[idx].connection_list.shape[1] + 1, 2 * self.mazes[idx].connection_list.shape[2] + 1, 3))",
     }
-    # only the identity of the callee's result is needed here (its own postconditions speak about ghost images the caller cannot see)
-    uses_ensures = {"process_maze_rasterized_input_target": []}
+    # only the identity and the shape of the callee's result are needed here (its other postconditions speak about ghost images the caller cannot see)
+    uses_ensures = {"process_maze_rasterized_input_target": ["C17.shape"]}
+    result = T.GridT("int", [2, None, None, 3])
+    pure_result = True
+    options = dict(no_concrete=True)
+    props = ["C17"]
+
+
+REGISTRY.inlinable.update({("maze_dataset/dataset/maze_dataset.py", "MazeDataset.__len__")})
+REGISTRY.class_files.update({"RasterizedMazeDataset": RZ, "MazeDataset": "maze_dataset/dataset/maze_dataset.py"})
+_ITEM_REQ = [r.replace("maze.", "self.mazes[mz].").replace("maze,", "self.mazes[mz],").replace("(maze)", "(self.mazes[mz])") for r in process_maze_rasterized_input_target.requires]
+
+
+@contract(RZ, "RasterizedMazeDataset.get_batch")
+class rasterized_get_batch:
+    """slot k of the batch is item idxs[k] of the dataset (all items when idxs is None): inputs in result[0], targets in result[1], in the order requested"""
+    # the three flags are symbolic booleans here (they only travel through to __getitem__)
+    params = dict(self=T.RecT("RasterizedMazeDataset", cfg=T.RecT("RasterizedMazeDatasetConfig", remove_isolated_cells=T.Bool, extend_pixels=T.Bool, endpoints_as_open=T.Bool), mazes=T.ListT(SOLVED_M)),
+                  idxs=T.OneOf(T.NoneT(), T.ListT(T.Int)))
+    lets = dict(n="len(self.mazes) if idxs is None else len(idxs)")
+    requires = [
+        "n >= 1",  # zip(*[]) yields nothing to unpack and torch.stack refuses an empty list
+        "idxs is None or forall(lambda k: 0 <= idxs[k] and idxs[k] < len(self.mazes), (0, len(idxs)))",
+        # one grid shape (torch.stack needs images of one shape)
+        "forall(lambda mz: self.mazes[mz].connection_list.shape[1] == self.mazes[0].connection_list.shape[1] and self.mazes[mz].connection_list.shape[2] == self.mazes[0].connection_list.shape[2], (0, len(self.mazes)))",
+    ] + ["forall(lambda mz: " + r + ", (0, len(self.mazes)))" for r in _ITEM_REQ]
+    ensures = {
+        "C17.batch.shape": "result.shape[0] == 2 and result.shape[1] == n and result.shape[4] == 3",
+        "C17.batch.order": "forall(lambda k: same_value(result[0][k], self[k if idxs is None else idxs[k]][0]) and same_value(result[1][k], self[k if idxs is None else idxs[k]][1]), (0, n))",
+    }
+    uses_ensures = {"RasterizedMazeDataset.__getitem__": ["C17.item.shape"]}
     options = dict(no_concrete=True)
     props = ["C17"]
